@@ -98,6 +98,14 @@ def tokenize(body):
                 toks.append(("text", body[i + 9:j], i))
                 i = j + 3
                 continue
+            if body.startswith("<!--", i) or body.startswith("<?", i):
+                # XML comments and processing instructions are inert
+                end = "-->" if body.startswith("<!--", i) else "?>"
+                j = body.find(end, i + 2)
+                if j < 0:
+                    raise RefError(f"unterminated comment / processing instruction at {i}")
+                i = j + len(end)
+                continue
             j = body.find(">", i)
             if j < 0:
                 raise RefError(f"unterminated tag at {i}")
